@@ -628,6 +628,11 @@ func (q *JQ) Apply(l Label) bool {
 		if !w.Inf.Jobs.Deliver() {
 			return false
 		}
+	case "JobWatchBreak": // the Job watch breaks: undelivered Job events are lost, the informer lists again (updates for all, tombstones for vanished Jobs)
+		if w.Inf.Jobs.Pending() == 0 || q.O.StoreLag || w.Inf.Jobs.Backlog(q.storeH) > 0 {
+			return false
+		}
+		w.Inf.Jobs.Resync(w.API.List("jobs"))
 	case "StoreDeliver":
 		if !w.Inf.Jobs.DeliverLagged(q.storeH) {
 			return false
@@ -796,6 +801,9 @@ func (q *JQ) Enabled(rng *rand.Rand, maxTime int, faultP float64, applied bool) 
 	}
 	if w.Inf.Jobs.Pending() > 0 {
 		add(Label{A: "Deliver"}, 4)
+		if !q.O.StoreLag && w.Inf.Jobs.Backlog(q.storeH) == 0 && rng.Intn(15) == 0 {
+			add(Label{A: "JobWatchBreak"}, 1)
+		}
 	}
 	if w.Inf.Jobs.Backlog(q.storeH) > 0 {
 		add(Label{A: "StoreDeliver"}, 3)
